@@ -5,6 +5,7 @@ import json, os, shutil, subprocess, sys, tempfile, glob
 from concurrent.futures import ThreadPoolExecutor
 V = os.path.dirname(os.path.dirname(os.path.abspath(__file__)))
 PIDS = ['C%02d' % i for i in range(1, 20)]
+SNAP = None
 def run_patch(patch):
     scratch = tempfile.mkdtemp(prefix='nsa-mx-')
     res = {}
@@ -14,9 +15,9 @@ def run_patch(patch):
         r = subprocess.run(['patch', '-p1', '-s', '-d', dst, '-i', patch], stdout=subprocess.PIPE, stderr=subprocess.STDOUT, text=True)
         if r.returncode != 0:
             return patch, {'_patch': 'FAILED ' + r.stdout[:200]}
-        env = dict(os.environ, NSA_EVIDENCE_DIR=os.path.join(scratch, 'evidence'))
+        env = dict(os.environ, NSA_EVIDENCE_DIR=os.path.join(scratch, 'evidence'), NSA_VERIF_HOME=V)
         for pid in PIDS:
-            p = subprocess.run(['python3-vt', '-m', 'nsa.check', pid, '--repo', dst], cwd=V, stdout=subprocess.PIPE, stderr=subprocess.STDOUT, text=True, env=env)
+            p = subprocess.run(['python3-vt', '-m', 'nsa.check', pid, '--repo', dst], cwd=SNAP or V, stdout=subprocess.PIPE, stderr=subprocess.STDOUT, text=True, env=env)
             first = next((l for l in p.stdout.splitlines() if l.startswith(pid + '.') or l.startswith('ANALYSIS-BROKEN')), '')
             res[pid] = {'rc': p.returncode, 'first': first[:300]}
     finally:
@@ -28,6 +29,12 @@ def main():
     if args and args[0] == '-j':
         j = int(args[1]); args = args[2:]
     patches = args or sorted(glob.glob(os.path.join(V, 'seeded', '*', 'patch.diff')) + glob.glob(os.path.join(V, 'selftest', 'mutants', '*.diff')) + glob.glob(os.path.join(V, 'selftest', 'benign', '*.diff')))
+    # run from a snapshot of the checker, so that editing nsa/ while the matrix runs does not produce mixed results
+    global SNAP
+    SNAP = tempfile.mkdtemp(prefix='nsa-snap-')
+    shutil.copytree(os.path.join(V, 'nsa'), os.path.join(SNAP, 'nsa'), ignore=shutil.ignore_patterns('__pycache__'))
+    for f in ('properties.jsonl', 'known_findings.txt'):
+        shutil.copy(os.path.join(V, f), SNAP)
     out = {}
     mpath = os.path.join(V, 'selftest', 'matrix.json')
     if os.path.exists(mpath) and args:
@@ -39,5 +46,9 @@ def main():
             fired = [p for p in PIDS if res.get(p, {}).get('rc') == 1]
             broken = [p for p in PIDS if res.get(p, {}).get('rc') == 2]
             print('%-55s fired=%s broken=%s %s' % (key, ','.join(fired) or '-', ','.join(broken) or '-', res.get('_patch', '')), flush=True)
+    if args and os.path.exists(mpath):
+        # merge with what a concurrent run may have written meanwhile
+        cur = json.load(open(mpath)); cur.update({k: out[k] for k in (os.path.relpath(p, V) for p in patches)}); out = cur
     json.dump(out, open(mpath, 'w'), indent=1, sort_keys=True)
+    shutil.rmtree(SNAP, ignore_errors=True)
 main()
